@@ -173,12 +173,14 @@ def check_printers(ctx):
         rets = A.returns(fn)
         ops = I.operands_attrs(repo, c)
         if len(rets) != 1 or ops is None:
-            ctx.error("C17.P", f"{po.name}._pretty_print: unrecognised shape")
+            ctx.note(f"{po.name}._pretty_print has an unrecognised shape; its output is judged by C17.T only")
             continue
         defs = A.single_defs(fn)
         parts = fstring_parts(ev, po.module, A.expand(rets[0].value, {k: v for k, v in defs.items() if isinstance(v, (ast.JoinedStr, ast.Constant, ast.BinOp, ast.Call, ast.List, ast.Tuple, ast.Subscript, ast.Attribute))}))
         if parts is None:
-            ctx.error("C17.P", f"{po.name}._pretty_print: not an f-string: {src(rets[0].value)[:60]}")
+            # written some other way (join / format over a helper): what it prints is judged by C17.T, which prints every instruction
+            # with this very method and parses the text back
+            ctx.note(f"{po.name}._pretty_print is not an f-string; its output is judged by C17.T only")
             continue
         parts = merge_lits(parts)
         holes = [hole_attr(v, defs) for k, v in parts if k == "hole"]
